@@ -247,18 +247,27 @@ def _explore_task(args):
                     res["validated"] += 1
                     continue
         if bad is None:
-            if a["failed"] != b["failed"] or a["exception"] != b["exception"]:
-                bad = f"outcome differs: lift={a['failed']}/{a['exception']} float={b['failed']}/{b['exception']}"
-            else:
-                for k, va in a["notes"].items():
-                    vb = b["notes"].get(k)
-                    if isinstance(va, float) and isinstance(vb, float):
-                        if abs(va - vb) > 1e-7 * max(1.0, abs(va), abs(vb)):
-                            bad = f"note {k}: engine {va!r} vs float {vb!r}"
-                            break
-                    elif va != vb:
-                        bad = f"note {k}: engine {va!r} vs float {vb!r}"
-                        break
+            bad = _compare_runs(a, b)
+            if bad is not None and envf is not None:
+                # A difference on a model that sits exactly on a comparison boundary (z3 returns vertices) can be
+                # float rounding at a tie.  A shim infidelity persists off the tie: re-run on perturbed inputs.
+                persists = 0
+                for j in (1, 2):
+                    envp = {k: (v * (1.0 + (i + 1) * j * 2.0 ** -11) if isinstance(v, float) else v)
+                            for i, (k, v) in enumerate(sorted(envf.items()))}
+                    try:
+                        a2 = run_concrete(fam, case, envp, "lift")
+                        b2 = run_concrete(fam, case, envp, "concrete")
+                    except Exception:
+                        persists += 1
+                        continue
+                    if a2["assumption_failed"] and b2["assumption_failed"]:
+                        continue
+                    if _compare_runs(a2, b2) is not None:
+                        persists += 1
+                if persists == 0:
+                    res["ties"] = res.get("ties", 0) + 1
+                    bad = None
         if bad:
             if len(res["validation_mismatch"]) < 5:
                 res["validation_mismatch"].append({"inputs": envf, "what": bad})
@@ -266,6 +275,21 @@ def _explore_task(args):
             res["validated"] += 1
     res["wall"] = time.time() - t0
     return res
+
+
+def _compare_runs(a, b):
+    if a["assumption_failed"] != b["assumption_failed"]:
+        return "assumption outcome differs between engine and float run"
+    if a["failed"] != b["failed"] or a["exception"] != b["exception"]:
+        return f"outcome differs: lift={a['failed']}/{a['exception']} float={b['failed']}/{b['exception']}"
+    for k, va in a["notes"].items():
+        vb = b["notes"].get(k)
+        if isinstance(va, float) and isinstance(vb, float):
+            if abs(va - vb) > 1e-7 * max(1.0, abs(va), abs(vb)):
+                return f"note {k}: engine {va!r} vs float {vb!r}"
+        elif va != vb:
+            return f"note {k}: engine {va!r} vs float {vb!r}"
+    return None
 
 
 def _note_eval(ctx, v, env):
